@@ -177,7 +177,9 @@ func report(c *cfg, results []*harnessResult, pkgFuncs map[string][]string, over
 						ok = nr.Panic != ""
 						detail = "native panic: " + nr.Panic
 					case "unwind":
-						detail = "native run terminated although the engine exceeded its loop bound"
+						// unbounded recursion ends natively in a stack overflow rather than in a timeout
+						ok = strings.HasPrefix(nr.Panic, "fatal runtime error")
+						detail = "native run terminated although the engine exceeded its loop bound; native panic: " + nr.Panic
 					}
 				}
 				if ok {
